@@ -316,6 +316,38 @@ def start_body(ctx, case):
         ctx.require(r["rebuild_identical"], "rebuild with %d worker processes under the %r start method is not bit-identical to the single-process build" % (r["threads"], case["method"]))
 
 
+# ------------------------------------------------------------------ a system of realistic size
+
+def big_cases(tier):
+    return [{"n_wfs": 4, "n": 16, "threads": t} for t in (2, 3)] + [{"n_wfs": 5, "n": 14, "threads": 2}]
+
+
+def big_body(ctx, case):
+    """Sensors of 14 x 14 and 16 x 16 sub-apertures (blocks of more than a MiB, more sensor pairs than four times the worker
+    count) through real worker processes: bit-identical to the single-process matrix, also on a rebuild with another count."""
+    sc = SC()
+    from aotools.functions.pupil import circle
+    n, k = case["n"], case["n_wfs"]
+    ctx.case(case, nontrivial=True, classes=["wfs%d_n%d_threads%d" % (k, n, case["threads"])])
+    m = circle(n / 2.0, n).astype(int)
+    pos = [[0.0, 0.0], [20.0, -10.0], [-15.0, 30.0], [40.0, 5.0], [-33.0, -21.0]][:k]
+    alts = [0, 0, 90e3, 90e3, 0][:k]
+
+    def mk(t):
+        return sc.CovarianceMatrix(k, [m.copy() for _ in range(k)], 8.0, [8.0 / n] * k, alts, pos, [500e-9, 589e-9, 589e-9, 1.65e-6, 500e-9][:k], 2, [0.0, 9000.0], [0.15, 0.4], [25.0, 60.0], t)
+    ref = np.array(mk(1).make_covariance_matrix())
+    o = mk(case["threads"])
+    try:
+        got = np.array(o.make_covariance_matrix())
+        o.threads = case["threads"] + 2
+        again = np.array(o.make_covariance_matrix())
+    finally:
+        reap()
+    for name, g in (("build", got), ("rebuild with %d workers" % (case["threads"] + 2), again)):
+        ctx.require(g.shape == ref.shape and bool(np.array_equal(bits(g), bits(ref))), "%s of a %d-sensor %dx%d system with %d worker processes is not bit-identical to the single-process build: %d of %d entries differ" % (
+            name, k, n, n, case["threads"], int(np.sum(bits(g) != bits(ref))) if g.shape == ref.shape else -1, ref.size))
+
+
 def self_test():
     # the fake pool returns what the real pool returns for an order-insensitive function
     fp = FakePool(3, schedule={"style": "random", "seed": 5})
@@ -330,4 +362,5 @@ LAWS = [
     machine_law("history_real", make_machine(60), replay_history, {"quick": 8, "thorough": 60}, {"quick": 7, "thorough": 10}, shards={"quick": 4, "thorough": 8}),
     plain_law("all_task_orders", order_cases, order_body, shards={"quick": 4, "thorough": 16}),
     plain_law("start_methods", start_cases, start_body, shards={"quick": 4, "thorough": 4}),
+    plain_law("realistic_size", big_cases, big_body, shards={"quick": 3, "thorough": 3}),
 ]
